@@ -33,10 +33,27 @@ def cases(tier, seed, extra=()):
             yield ("instance", {"inst": inst.as_json(), "tier": tier, "reuse": True})
 
 
+def corpus_cases(tier, seed):
+    """documented full-size strings, explored with a deviation bound (structural per-execution oracles only)"""
+    from ..corpus import corpus_instances
+
+    insts = corpus_instances()
+    if tier == "quick":
+        k = seed % max(1, len(insts))
+        insts = (insts[k:] + insts[:k])[:8]
+    for inst in insts:
+        yield ("corpus", {"inst": inst.as_json(), "tier": tier, "bound": 1 if tier == "quick" else 2})
+
+
 def evaluate(pid, want, data, well_posed=None):
     res = new_result()
     inst = Instance.from_json(data["inst"])
-    stats, viols, dist = run_instance(inst, max_exec=MAX_EXEC[data.get("tier", "quick")], want=want, well_posed=well_posed, reuse=bool(data.get("reuse")), max_seconds=MAX_SECONDS[data.get("tier", "quick")])
+    if "bound" in data:
+        # deviation-bounded exploration of a full-size string: never exhaustive, no model comparison
+        stats, viols, dist = run_instance(inst, max_exec=120 if data.get("tier") == "quick" else 2500, bound=data["bound"], want=tuple(w for w in want if w in ("C04", "C05")), well_posed=False, model=False, max_seconds=100 if data.get("tier") == "quick" else 900)
+        stats["capped"] = False
+    else:
+        stats, viols, dist = run_instance(inst, max_exec=MAX_EXEC[data.get("tier", "quick")], want=want, well_posed=well_posed, reuse=bool(data.get("reuse")), max_seconds=MAX_SECONDS[data.get("tier", "quick")])
     for key, (what, script) in viols.items():
         if key.startswith(pid + "|"):
             viol(res, key, what, {"script": script, "text": inst.text})
@@ -48,5 +65,9 @@ def evaluate(pid, want, data, well_posed=None):
     res["nontrivial"] = (inst.name + ("|reused-object" if data.get("reuse") else "")) if stats["execs"] > 0 else None
     res["outcomes"] = [f"{inst.family}:{k[1]}" for k in dist]
     res["sample"] = {"instance": inst.text, "executions": stats["execs"], "choice_points": stats["points"], "distinct_outcomes": stats["outcomes"], "model_states": stats["model_states"]}
+    if "bound" in data:
+        res["extra"] = {"documented_string_executions": stats["execs"], "documented_strings": 1}
+        res["nontrivial"] = inst.name + f"|deviation-bound={data['bound']}"
+        return res
     res["extra"] = {"impl_executions": stats["execs"], "impl_choice_points": stats["points"], "impl_exceptions": stats["exceptions"], "model_states": stats["model_states"], "model_transitions": stats["model_transitions"]}
     return res
